@@ -154,13 +154,15 @@ EqNest(op, i, j, how) ==
                               SPrint(EBin(op, EObj(<<Pair(EStr(<<97>>), EVar(A)), Pair(EStr(<<98>>), EVar(A))>>),
                                               EObj(<<Pair(EStr(<<97>>), EObj(<<Pair(EStr(<<107>>), Ex(i))>>)),
                                                      Pair(EStr(<<98>>), EObj(<<Pair(EStr(<<107>>), Ex(j))>>))>>)))>>
+      [] how = "objkeys" -> <<SPrint(EBin(op, EObj(<<Pair(EStr(<<97>>), Ex(i)), Pair(EStr(<<98>>), EInt(1))>>),
+                                              EObj(<<Pair(EStr(<<97>>), Ex(j)), Pair(EStr(<<99>>), EInt(1))>>)))>>
       [] how = "deep" -> <<SDecl(EVar(A), EList(<<EObj(<<Pair(EStr(<<107>>), EList(<<Ex(i)>>))>>)>>)),
                            SDecl(EVar(Bn), EList(<<EObj(<<Pair(EStr(<<107>>), EList(<<Ex(j)>>))>>)>>)),
                            SPrint(EBin(op, EVar(A), EVar(Bn)))>>
 
 \* parameter tuples <<family, op-or-context, i, j, form>>
 C16Params ==
-    { <<"eqnest", op, i, j, how>> : op \in {"==", "!="}, i \in KIdx, j \in KIdx, how \in {"list", "obj", "deep", "sharedl", "sharedr", "sharedo"} }
+    { <<"eqnest", op, i, j, how>> : op \in {"==", "!="}, i \in KIdx, j \in KIdx, how \in {"list", "obj", "deep", "sharedl", "sharedr", "sharedo", "objkeys"} }
     \cup
     { <<"op", OpList[o], i, j, "plain">> : o \in 1 .. Len(OpList), i \in KIdx, j \in KIdx }
     \cup { <<"op", op, i, j, form>> : op \in AssignOps, i \in KIdx, j \in KIdx, form \in Forms \ {"plain"} }
